@@ -47,6 +47,9 @@ pub enum Mutation {
     TextEdit(u16, Edit),
     /// the same for the n-th attribute value
     AttrEdit(u16, Edit),
+    /// re-address the message: every `message-id` value becomes the *other* outstanding request's
+    /// id (a duplicate / misdirected reply)
+    OtherMessageId,
 }
 
 #[derive(Debug, Clone, Serialize, Deserialize)]
@@ -279,6 +282,16 @@ pub fn apply(mut data: Vec<u8>, m: &Mutation) -> Vec<u8> {
             }
         }
         Mutation::DoubleMarker => data.extend_from_slice(MARKER.as_bytes()),
+        Mutation::OtherMessageId => {
+            // in the worlds of this check the request that receives the bytes has id 2, the
+            // other outstanding request id 1
+            if let Ok(s) = std::str::from_utf8(&data) {
+                data = s
+                    .replace("message-id=\"2\"", "message-id=\"1\"")
+                    .replace("message-id='2'", "message-id='1'")
+                    .into_bytes();
+            }
+        }
         Mutation::TextEdit(n, e) | Mutation::AttrEdit(n, e) => {
             if let Ok(s) = std::str::from_utf8(&data) {
                 let spans = if matches!(m, Mutation::TextEdit(..)) {
@@ -319,6 +332,7 @@ pub fn mutation() -> impl Strategy<Value = Mutation> {
         1 => Just(Mutation::DoubleMarker),
         8 => (any::<u16>(), edit()).prop_map(|(n, e)| Mutation::TextEdit(n, e)),
         3 => (any::<u16>(), edit()).prop_map(|(n, e)| Mutation::AttrEdit(n, e)),
+        2 => Just(Mutation::OtherMessageId),
     ]
 }
 
@@ -355,6 +369,11 @@ pub struct Case {
     pub base: Base,
     pub style: Style,
     pub mutations: Vec<Mutation>,
+    /// (replies) the other request's valid reply arrives *before* the damaged bytes: it is read
+    /// by the first caller's reader and parked; the damaged bytes (which may even carry the other
+    /// request's message-id) must not disturb it
+    #[serde(default)]
+    pub b_first: bool,
 }
 
 #[derive(Debug, PartialEq, Eq)]
@@ -392,13 +411,72 @@ pub fn feed_hello(bytes: &[u8]) -> Fed {
 /// Entry function shared with the fuzz targets: request A = `spec`, request B = a tagged
 /// get-config; `bytes` arrive first, then B's valid reply.
 pub fn feed_reply(spec: &ReqSpec, bytes: &[u8]) -> Fed {
-    match catch(|| feed_reply_raw(spec, bytes)) {
+    feed_reply_ordered(spec, bytes, false)
+}
+
+pub fn feed_reply_ordered(spec: &ReqSpec, bytes: &[u8], b_first: bool) -> Fed {
+    match catch(|| feed_reply_raw_ordered(spec, bytes, b_first)) {
         Ok(f) => f,
         Err((loc, msg)) => Fed::Panicked(loc, msg),
     }
 }
 
 pub fn feed_reply_raw(spec: &ReqSpec, bytes: &[u8]) -> Fed {
+    feed_reply_raw_ordered(spec, bytes, false)
+}
+
+/// `b_first`: B's valid reply is delivered first (the first caller's reader takes it off the
+/// transport and parks it for B), then the bytes. Whatever the bytes are - including a second
+/// message bearing B's id - B must afterwards receive the reply that was parked for it.
+fn feed_reply_b_first(spec: &ReqSpec, bytes: &[u8]) -> Fed {
+    let (mut sess, wire) = establish_caps(&all_caps());
+    let fut_b = match drive(sess.rpc::<GetConfig<Opaque>, _>(|b| {
+        b.source(Ds::Running.to_lib())?.finish()
+    })) {
+        Some(Ok(f)) => f,
+        other => {
+            return Fed::OtherCallerBroken(format!(
+                "harness: cannot send request B: {:?}",
+                other.map(|r| r.map(|_| ()))
+            ))
+        }
+    };
+    let id_b = wire
+        .sent()
+        .last()
+        .and_then(|m| message_id_lenient(m))
+        .unwrap_or_default();
+    let reply_b = format!(
+        "<rpc-reply xmlns=\"{NS_BASE}\" message-id=\"{id_b}\"><data>{TAG}</data></rpc-reply>{MARKER}"
+    )
+    .into_bytes();
+    let bytes_a = bytes.to_vec();
+    let (_s, _req, out) = crate::ops::run_req(sess, &wire, spec, |_id| vec![reply_b, bytes_a]);
+    if matches!(out, crate::ops::Outcome::SendStuck | crate::ops::Outcome::Refused(_)) {
+        return Fed::OtherCallerBroken(format!("harness: request A not sent: {out:?}"));
+    }
+    if matches!(out, crate::ops::Outcome::Stuck) {
+        // every message the reader meets resolves it: its own reply, a collision with the parked
+        // reply, an unknown id, or a parse error
+        return Fed::Stuck("reply future of the request that received the bytes (the other request's reply had arrived before)");
+    }
+    let parsed = !matches!(&out, crate::ops::Outcome::OtherErr(e) if e.contains("DecodeMessage"));
+    match drive(fut_b) {
+        None => Fed::OtherCallerBroken("request B never resolved although its reply had arrived before the damaged bytes".into()),
+        Some(Ok(v)) if &*v == TAG => Fed::Returned {
+            parsed_beyond_root: parsed,
+        },
+        Some(Ok(v)) => Fed::OtherCallerBroken(format!("request B got foreign data {v:?} instead of the reply that had arrived for it")),
+        Some(Err(e)) => Fed::OtherCallerBroken(format!(
+            "request B failed with {e:?} although its valid reply had arrived before the damaged bytes"
+        )),
+    }
+}
+
+pub fn feed_reply_raw_ordered(spec: &ReqSpec, bytes: &[u8], b_first: bool) -> Fed {
+    if b_first {
+        return feed_reply_b_first(spec, bytes);
+    }
     let r = (|| {
         let (mut sess, wire) = establish_caps(&all_caps());
         // request B first needs the session by reference; A may consume it (close-session), so
@@ -522,11 +600,13 @@ impl Prop for Mutations {
             prop_oneof![3 => hello, 6 => reply, 1 => raw],
             style_strategy(),
             prop::collection::vec(mutation(), 0..4),
+            prop::bool::weighted(0.3),
         )
-            .prop_map(|(base, style, mutations)| Case {
+            .prop_map(|(base, style, mutations, b_first)| Case {
                 base,
                 style,
                 mutations,
+                b_first,
             })
             .boxed()
     }
@@ -545,11 +625,14 @@ impl Prop for Mutations {
                 let ops = ReqSpec::canonical();
                 let spec = &ops[*op as usize % ops.len()];
                 obs.class(format!("target:reply:{:?}", spec.reply_kind()));
-                feed_reply(spec, &bytes)
+                if case.b_first {
+                    obs.class("order:other-reply-parked-first");
+                }
+                feed_reply_ordered(spec, &bytes, case.b_first)
             }
             Base::Raw(_) => {
                 obs.class("target:raw-as-reply");
-                feed_reply(&ReqSpec::canonical()[1], &bytes)
+                feed_reply_ordered(&ReqSpec::canonical()[1], &bytes, case.b_first)
             }
         };
         for m in &case.mutations {
@@ -617,7 +700,7 @@ pub fn fuzz_one(target: &str, data: &[u8]) -> Option<(String, String)> {
                 return None;
             };
             let ops = ReqSpec::canonical();
-            feed_reply(&ops[*op as usize % ops.len()], bytes)
+            feed_reply_ordered(&ops[(*op & 0x7f) as usize % ops.len()], bytes, *op & 0x80 != 0)
         }
         _ => {
             let Some((which, bytes)) = data.split_first() else {
